@@ -715,12 +715,7 @@ func (h *hist) stepInvalid() {
 			delete(h.known, op)
 			h.sub(x, h.path())
 		} else {
-			o := fc[h.r.Intn(len(fc))]
-			op := OP{Hash: o.Hash, Idx: o.Idx + 50 + uint32(h.r.Intn(5))}
-			h.known[op] = refchain.Coin{Value: 50000, Script: []byte{0x51}}
-			x := h.build([]OP{op}, bopt{family: "bad-vout-of-confirmed", fee: 500, bad: -1, nout: 1})
-			delete(h.known, op)
-			h.sub(x, h.path())
+			h.stepSimple() // (an orphan of a non-existent output of a confirmed tx: see poison.go)
 		}
 	case 4: // no fee
 		ins := h.take(&fc, 1)
@@ -754,23 +749,8 @@ func (h *hist) stepInvalid() {
 		}
 		x := h.build(h.take(&fc, 1), bopt{family: "too-big", fee: 200000, bad: -1, nout: 1, pad: 101000})
 		h.sub(x, "net")
-	case 8: // an input that is already spent by the chain (parent confirmed, output gone)
-		var spentOnes []OP
-		for n, k := h.ref.Tip, 0; n != nil && n.Block != nil && k < 12; n, k = n.Parent, k+1 {
-			for _, t := range n.Block.Txs[1:] {
-				for _, in := range t.In {
-					if _, ok := h.known[in.Prev]; ok {
-						spentOnes = append(spentOnes, in.Prev)
-					}
-				}
-			}
-		}
-		if len(spentOnes) == 0 {
-			h.stepSimple()
-			return
-		}
-		x := h.build([]OP{spentOnes[h.r.Intn(len(spentOnes))]}, bopt{family: "spends-output-spent-by-chain", fee: 900, bad: -1, nout: 1})
-		h.sub(x, h.path())
+	case 8:
+		h.stepChild() // (an orphan of an output already spent by the chain: see poison.go)
 	}
 }
 
@@ -1088,7 +1068,9 @@ func (h *hist) stepTick() {
 	}
 	before := len(h.v.ents)
 	h.note("tick backdated=%d pool=%d", n, before)
+	h.enter("Tick")
 	txpool.Tick()
+	h.leave()
 	h.run.Inc("ticks")
 	if h.r.Intn(2) == 0 {
 		// client/network/trxs.go SendGetMP: the dynamic fee floor is reset when a getmp is sent
@@ -1111,15 +1093,19 @@ func (h *hist) stepSaveLoad() {
 		before[e.id] = true
 	}
 	h.note("save/load pool=%d", len(before))
+	h.enter("MempoolSave/InitMempool")
 	txpool.MempoolSave(true)
 	txpool.InitMempool()
+	h.leave()
 	if !h.check(false) {
 		return
 	}
 	if len(h.v.ents) != 0 {
 		h.run.Inc("aux_pool_not_empty_after_init")
 	}
+	h.enter("MempoolLoad")
 	ok := txpool.MempoolLoad()
+	h.leave()
 	h.run.Inc("reloads")
 	if !h.check(true) {
 		return
